@@ -13,6 +13,7 @@ import (
 // specified. A max of 0 or less indicates there is no maximum.
 func (x Expr) Locate(data any, max int) (locs []Expr) {
 	if 0 < len(x) {
+		x = x.rootedFilters(data)
 		locs = x[0].locate(nil, data, x[1:], max)
 	}
 	return
